@@ -52,8 +52,17 @@ TCrashRead ==
            \* the reader model agrees on the shapes whenever it reads the same number of them
            /\ (Len(m.items) = Len(g)) => \A k \in 1..Len(g) : SameRead(m.items[k].shape, g[k])
 
+\* a crash right after opening the writer by path over an older valid file, or after a few writes none of which
+\* was flushed: whatever the reader makes of what is on the disk, it is a prefix of what THIS writer wrote -- nothing
+TCrash0 ==
+    /\ Ev("crash0") /\ UNCHANGED cur
+    /\ LET e == Rec[l]
+       IN  /\ ~e.panic /\ e.oldLen > 100
+           /\ e.res.err # "panic" /\ e.res.openErr # "panic"
+           /\ e.res.items = << >>
+
 Init == l = 2 /\ cur = [shapes |-> << >>, shpOps |-> << >>, shxOps |-> << >>]
-Next == TWorkload \/ TCrashRead
+Next == TWorkload \/ TCrashRead \/ TCrash0
 Spec == Init /\ [][Next]_vars
 
 Accepted ==
